@@ -11,6 +11,8 @@ import (
 	"sort"
 	"strings"
 
+	z "github.com/Oudwins/zog"
+	"github.com/Oudwins/zog/conf"
 	"zogverif/mc"
 	"zogverif/zh"
 )
@@ -147,7 +149,7 @@ func indexOf(s, sub string) int {
 func init() {
 	Register(&Prop{
 		ID:    "C13",
-		Rule:  "one execution = one fully populated value (every leaf ∈ {passing, failing t1, failing t2, failing both}, never zero or blank; slices of 1–2 elements; pointers set) of a core skeleton with ≤k focus units ranging over configuration × value (and any one unit over configuration × PostTransforms {none, one that changes the value, one that changes the value followed by a plain one} × value), run twice on the real code: Validate in place, and Parse of the value rendered as the map it would be decoded from into a fresh destination, under every field visit order; non-trivial = deviating case; distinct = distinct (skeleton, issue set)",
+		Rule:  "one execution = one fully populated value (every leaf ∈ {passing, failing t1, failing t2, failing both}, never zero or blank; slices of 1–2 elements; pointers set) of a core skeleton with ≤k focus units ranging over configuration × value (and, with any one unit deviating, every case again under an installed process-wide formatter; and any one unit over configuration × PostTransforms {none, one that changes the value, one that changes the value followed by a plain one} × value), run twice on the real code: Validate in place, and Parse of the value rendered as the map it would be decoded from into a fresh destination, under every field visit order; non-trivial = deviating case; distinct = distinct (skeleton, issue set)",
 		Floor: 50,
 		Bound: func(tier string) string {
 			k, e := coreK(tier)
@@ -159,6 +161,18 @@ func init() {
 			// value-changing PostTransforms: any one unit over configuration × PostTransforms × value
 			for _, it := range coreItems(tier, c13Scenario, func(a *Alpha) { a.Full = true; a.MutPost = true }, []int{1}, 1) {
 				it.Name = "with-posts/" + it.Name
+				items = append(items, it)
+			}
+			// a process-wide formatter installed (conf.IssueFormatter): both modes must use it, at every entry point
+			for _, it := range coreItems(tier, c13Scenario, func(a *Alpha) { a.Full = true }, []int{1}, 1) {
+				it.Name = "global-formatter/" + it.Name
+				inner := it.Run
+				it.Run = func(x *mc.X) *mc.Outcome {
+					saved := conf.IssueFormatter
+					conf.IssueFormatter = func(e *z.ZogIssue, c z.Ctx) { e.SetMessage("installed formatter: " + e.Code + " " + e.Dtype) }
+					defer func() { conf.IssueFormatter = saved }()
+					return inner(x)
+				}
 				items = append(items, it)
 			}
 			// tagged destinations: the record skeleton with uniform zog tags (plain, and with a comma in the value)
